@@ -314,7 +314,7 @@ pub fn prop() -> Prop<NetConcCase> {
             "a reply missing after 10 s is reported as reply-missing only when a probe on a fresh connection is answered",
         ],
         needs_shim: true,
-        budget: |t| t.pick(1600, 40_000),
+        budget: |t| t.pick(3200, 50000),
         shards: |_| 16,
         strategy,
         exec,
